@@ -228,14 +228,15 @@ class ModelCompiler:
     def build_defined_names(self):
         """Add defined ranges to model."""
         for name in self.defined_names:
-            cell_address = self.defined_names[name]
-            cell_address = cell_address.replace('$', '')
-            if cell_address.startswith("'"):
+            # Only the cell reference is absolute ($A$1); a '$' may also be
+            # part of the sheet name.
+            sheet, sep, ref = self.defined_names[name].rpartition('!')
+            if sheet.startswith("'"):
                 # A sheet name that needs quoting is written 'My Sheet'!A1
                 # (quotes inside the name doubled); cells are keyed by the
                 # plain sheet name.
-                sheet, _, ref = cell_address.rpartition('!')
-                cell_address = sheet[1:-1].replace("''", "'") + '!' + ref
+                sheet = sheet[1:-1].replace("''", "'")
+            cell_address = sheet + sep + ref.replace('$', '')
 
             # a cell has an address like; Sheet1!A1
             if ':' not in cell_address:
